@@ -79,6 +79,10 @@ def gate_by_id(gid):
         g = sparse_generic_gate(int(base[2:]))
     elif base[0] == "K" and base[1:].isdigit():
         g = const_asym_gate(int(base[1:]))
+    elif base in ("CDI", "CSY(th0)", "CSY(0.7)"):
+        from .props import c07
+
+        g = c07.diag_custom_gate() if base == "CDI" else c07.sym_custom_gate()(parse_param(base[4:-1]))
     elif "(" in base:
         name, args = base[:-1].split("(", 1)
         ps = [parse_param(a) for a in split_args(args)]
